@@ -4,7 +4,7 @@
    branch for branch.  Time is an explicit argument (nanoseconds on any monotone clock); the hash
    (random.MD5UUID) and, with a real sender, the generated code are oracle inputs taken from the
    observation. *)
-From Coq Require Import ZArith List Bool Lia String Ascii.
+From Coq Require Import ZArith NArith List Bool Lia String Ascii.
 Import ListNotations.
 Open Scope Z_scope.
 
@@ -253,6 +253,9 @@ Fixpoint nonce_run (bound : Z) (base : string) (raw : bool) (targets : list Z) :
                  (bound :: bs, match o with Some s => Some (String ch s) | None => None end)
     end
   end.
+
+(* case files spell strings with bytes outside printable ASCII as byte lists *)
+Definition sb (l : list N) : string := string_of_list_ascii (map ascii_of_N l).
 
 Arguments tsub : simpl never.
 Arguments key : simpl never.
